@@ -7,6 +7,7 @@ package main
 
 import (
 	"fmt"
+	"go/token"
 	"go/types"
 	"strings"
 
@@ -27,15 +28,36 @@ func pureScalarFn(fn *ssa.Function, fc *FuncContract) bool {
 			// caller mutates between two calls, and one shared application would then be unsound
 			return false
 		}
+		if k == KSlice || k == KArray {
+			// a slice or array of scalars stands for its contents (the backing array, offset and length are
+			// the arguments); assumed contracts only
+			if !fc.Trusted || !scalarElems(p.Type()) {
+				return false
+			}
+			continue
+		}
 		if k != KScalar && k != KPtr {
 			return false
 		}
 	}
 	rs := fn.Signature.Results()
-	if rs.Len() != 1 || kindOf(rs.At(0).Type()) != KScalar {
+	if rs.Len() != 1 {
+		return false
+	}
+	if k := kindOf(rs.At(0).Type()); k != KScalar && !(k == KArray && fc.Trusted && scalarElems(rs.At(0).Type())) {
 		return false
 	}
 	return true
+}
+
+func scalarElems(t types.Type) bool {
+	switch u := t.Underlying().(type) {
+	case *types.Slice:
+		return kindOf(u.Elem()) == KScalar
+	case *types.Array:
+		return kindOf(u.Elem()) == KScalar
+	}
+	return false
 }
 
 func (x *Exec) pureApp(fn *ssa.Function, args []*Term) *Term {
@@ -46,6 +68,10 @@ func (x *Exec) pureApp(fn *ssa.Function, args []*Term) *Term {
 	if _, ok := x.vc.declared[q]; !ok {
 		var ss []string
 		for _, p := range fn.Params {
+			if sl, ok := p.Type().Underlying().(*types.Slice); ok {
+				ss = append(ss, SArr(m.ixSort(), m.leafSort(sl.Elem())), m.ixSort(), m.ixSort())
+				continue
+			}
 			ss = append(ss, m.leafSort(p.Type()))
 		}
 		x.vc.declared[q] = rs
@@ -54,24 +80,36 @@ func (x *Exec) pureApp(fn *ssa.Function, args []*Term) *Term {
 	return App(q, rs, args...)
 }
 
-func pureArgTerm(a Value) *Term {
-	if a.K == KPtr {
+func (x *Exec) pureArgTerms(st *State, a Value) []*Term {
+	switch a.K {
+	case KPtr:
 		if !a.isCanonical() {
 			unsupported("interior pointer passed to a pure function")
 		}
-		return a.Loc.Root
+		return []*Term{a.Loc.Root}
+	case KSlice:
+		lf := x.m().flatten(a.Loc.T)
+		if len(lf) != 1 {
+			unsupported("slice of composites passed to a pure function")
+		}
+		c := x.comp(st, a.Loc.Prefix, x.compSortFor(lf[0].Sort, len(a.Loc.Elems)+1))
+		return []*Term{nestedSelect(c, a.Loc.indices()), a.Off, a.Len}
 	}
-	return a.X
+	return []*Term{a.X}
 }
 
 // pureCallValue: the application plus its contract's ensures as (side) facts.
 func (x *Exec) pureCallValue(fr *Frame, st *State, fn *ssa.Function, fc *FuncContract, pkg *PkgInfo, args []Value) Value {
 	var ts []*Term
 	for _, a := range args {
-		ts = append(ts, pureArgTerm(a))
+		ts = append(ts, x.pureArgTerms(st, a)...)
 	}
 	rt := fn.Signature.Results().At(0).Type()
 	res := Value{T: rt, K: KScalar, X: x.pureApp(fn, ts)}
+	x.sliceExtensionality(fn, args, ts, res.X)
+	if kindOf(rt) == KArray {
+		res, _ = x.m().fromLeaves(rt, []*Term{res.X})
+	}
 	x.assumeTypeInv(st, res)
 	env := &CEnv{x: x, fr: fr, st: st, old: st, pkg: pkg, vars: map[string]Value{}, mode: x.m(), hasResult: true, result: res, sig: fn.Signature}
 	for i, p := range fn.Params {
@@ -136,4 +174,62 @@ func lookupNamedType(pkg *PkgInfo, name string) types.Type {
 		}
 	}
 	return nil
+}
+
+// A pure function of a slice depends on the bytes in [off, off+len) only, not on the rest of the backing array.
+// For every pair of applications of the same function one instance of that fact is emitted (skolemised, so it
+// stays quantifier-free): equal scalar arguments, equal offset and length and equal contents at an arbitrary
+// position in range imply equal results.
+var pureAppsOf = map[*VC]map[string][]pureAppRec{}
+
+type pureAppRec struct {
+	args []Value
+	ts   []*Term
+	res  *Term
+}
+
+func (x *Exec) sliceExtensionality(fn *ssa.Function, args []Value, ts []*Term, res *Term) {
+	hasSlice := false
+	for _, a := range args {
+		if a.K == KSlice {
+			hasSlice = true
+		}
+	}
+	if !hasSlice {
+		return
+	}
+	m := x.m()
+	ixT := IntTy{64, true}
+	reg := pureAppsOf[x.vc]
+	if reg == nil {
+		reg = map[string][]pureAppRec{}
+		pureAppsOf[x.vc] = reg
+	}
+	key := fn.String()
+	for _, prev := range reg[key] {
+		if termEqual(prev.res, res) {
+			continue
+		}
+		var hyp []*Term
+		i, j := 0, 0
+		for k, a := range args {
+			_ = k
+			if a.K == KSlice {
+				A, o, n := ts[i], ts[i+1], ts[i+2]
+				B, o2, n2 := prev.ts[j], prev.ts[j+1], prev.ts[j+2]
+				x.vc.nfresh++
+				sk := x.vc.decl(fmt.Sprintf("sk!ext%d", x.vc.nfresh), m.ixSort())
+				hyp = append(hyp, Eq(o, o2), Eq(n, n2),
+					Implies(And(m.cmp(token.LEQ, o, sk, ixT), m.cmp(token.LSS, sk, x.ixAdd(o, n), ixT)), Eq(Select(A, sk), Select(B, sk))))
+				i += 3
+				j += 3
+				continue
+			}
+			hyp = append(hyp, Eq(ts[i], prev.ts[j]))
+			i++
+			j++
+		}
+		x.vc.assume(Implies(And(hyp...), Eq(res, prev.res)))
+	}
+	reg[key] = append(reg[key], pureAppRec{args, ts, res})
 }
